@@ -41,7 +41,7 @@ for t in ("map8", "umap8", "vecpair8"):
 def size_contract(cxxtype, name, elem):
     key = "nop::Encoding<%s>::Size" % cxxtype
     out.append("contract %s\n  requires FRESH(value) && value->size_ <= (1UL << 60)\n  assigns\n  ensures RET == 1 + VT_LEN_UINT(value->size_ * %d) + value->size_ * %d\n" % (key, elem, elem))
-    out.append("job sd_size_%s\n  props C06 C03\n  enforce %s\n  note unbounded: every container length up to 2^60 elements\n" % (name, key))
+    out.append("job sd_size_%s\n  props C06 C03 C01\n  enforce %s\n  note unbounded: every container length up to 2^60 elements\n" % (name, key))
 size_contract("std::vector<unsigned char>", "vecu8", 1)
 size_contract("std::vector<unsigned int>", "vecu32", 4)
 size_contract("std::basic_string<char>", "str", 1)
